@@ -229,6 +229,14 @@ impl TopicActor {
         &mut self,
         subscription: Arc<Subscription>,
     ) -> Result<(), AttachSubscriptionError> {
+        // The deletion of a subscription may overtake its creation: the subscription is
+        // visible (and can be deleted) before the request to attach it gets here. By then
+        // it has already asked to be removed, so attaching it now would leave a dead
+        // subscription on the topic for good.
+        if subscription.is_deleting() {
+            return Err(AttachSubscriptionError::Closed);
+        }
+
         // Insert the subscription.
         if let Entry::Vacant(entry) = self.subscriptions.entry(subscription.name.clone()) {
             entry.insert(subscription);
